@@ -21,14 +21,18 @@ TRIAGE = {
         "peg reports the failure position of `[t]` after the element: location 0 can only be an EOF failure on an empty token list, and the empty list parses",
     P + "parser::parse_library::{closure#0}|call:core::option::Option::unwrap#1":
         "location <= tokens.len() and >= 1 (see previous entry), so get(location-1) is Some",
-    P + "preprocessor::remove_oscat_comment|assert:Overflow:Add#1": "start + 21 <= source.len() because find() matched the 21-byte marker at start",
-    P + "preprocessor::remove_oscat_comment|assert:Overflow:Add#2": "same as #1",
-    P + "preprocessor::remove_oscat_comment|call:<alloc::string::String as core::ops::index::Index<I>>::index#1":
-        "0..start+21 ends at the end of the ASCII marker found by find(): in bounds and on a char boundary",
-    P + "preprocessor::remove_oscat_comment|call:<alloc::string::String as core::ops::index::Index<I>>::index#2":
-        "end comes from find(): a char boundary inside the string",
-    P + "preprocessor::remove_oscat_comment|call:<alloc::string::String as core::ops::index::Index<I>>::index#3":
-        "start < end is tested and the two markers cannot overlap (the first ends with `DESCRIPTION*)`, the second starts with `(*@KEY@:END_`), so start+21 <= end",
+    # remove_oscat_comment after fix (every block, not only the first): `rest` is the text still to be copied; positions are found in it
+    P + "preprocessor::remove_oscat_comment|assert:Overflow:Add#1": "text_start = find(start_key) + start_key.len(): the end of the match, <= rest.len()",
+    P + "preprocessor::remove_oscat_comment|assert:Overflow:Add#2": "text_end = text_start + (position of end_key found in rest[text_start..]): <= rest.len()",
+    P + "preprocessor::remove_oscat_comment|assert:Overflow:Add#3": "text_end + end_key.len(): the end of the match of end_key at text_end, <= rest.len()",
+    P + "preprocessor::remove_oscat_comment|call:core::str::traits::index#1":
+        "rest[text_start..]: text_start is the end of the match of start_key found by find() in rest (R-C04-samestr: same text): in bounds, on a char boundary",
+    P + "preprocessor::remove_oscat_comment|call:core::str::traits::index#2":
+        "rest[..text_start]: same offset as #1",
+    P + "preprocessor::remove_oscat_comment|call:core::str::traits::index#3":
+        "rest[text_start..text_end]: text_end is text_start plus a position found in rest[text_start..], so text_start <= text_end <= rest.len() and both are boundaries",
+    P + "preprocessor::remove_oscat_comment|call:core::str::traits::index#4":
+        "rest[text_end + end_key.len()..]: the end of the match of end_key that find() located at text_end",
     P + "lexer::tokenize|assert:Overflow:Add#1": "line/column counters are bounded by the input length (< isize::MAX)",
     P + "lexer::tokenize|assert:Overflow:Add#2": "line/column counters are bounded by the input length",
     P + "lexer::tokenize|assert:Overflow:Add#3": "line/column counters are bounded by the input length",
